@@ -29,6 +29,8 @@ def first(prog, **kw):
     d = int(digest(prog)[-2], 16)
     if prog.get("conv", "value") == "value" and d % 2 and not int(digest(prog)[-1], 16) % 2:
         engine.reset_process_state()
+        if d % 4 == 1:
+            engine.prelude()     # the thread's scheduler has already flushed once, before anybody subscribed to its hooks
         p2 = copy.deepcopy(prog)
         pre = engine.prepare(p2)
         env = engine.run_program(prog, reset=False, **kw)
